@@ -44,8 +44,8 @@ fn gen_program(r: &mut Rng, idx: u64) -> (Vec<u8>, &'static str) {
     if let Some(code) = fixed {
         return (code, "corpus");
     }
-    match r.below(11) {
-        10 => (workload::gen_growth(r), "growth"),
+    match r.below(12) {
+        10 | 11 => (workload::gen_growth(r), "growth"),
         0..=4 => (workload::gen_copy(r), "copy"),
         5..=7 => (workload::gen_storage(r), "storage"),
         8 => (workload::gen_cfg(r), "cfg"),
@@ -244,7 +244,7 @@ impl C13Check {
             knobs.max_forks = 1 + kr.usize_below(8);
             knobs.max_iterations = 1 + kr.usize_below(4);
             knobs.mem_op_limit = *kr.pick(&[32usize, 33, 394, 394, 4096]);
-            knobs.value_size_limit = *kr.pick(&[250usize, 250, 10, 3]);
+            knobs.value_size_limit = *kr.pick(&[250usize, 250, 1000, 1000, 10, 3]);
             if kr.chance(1, 5) {
                 knobs.gas_limit = kr.log_range(100, 5_000) as usize;
             }
